@@ -41,10 +41,13 @@ DESCRIPTION = {
         "sequence (thread, op, args, outcome); it is non-trivial iff it hit >=1 probe (rejected open followed by a read, "
         "rejected nested open followed by an outer read, context switch inside __call__/__enter__/__exit__/__getattr__, "
         "scope exit while another thread is in scope, identifier reuse, falsy override masking a truthy environment value, "
-        "read straddling an environment flip)."
+        "read straddling an environment flip). Worlds varied per run (swarm): warnings escalated to errors for the run (20%); "
+        "library operations between the configuration operations - LineageRunner objects constructed inside / outside scopes and "
+        "evaluated, successfully or not, by any thread later (12%); threads the threading module does not list (raw _thread / "
+        "C-created: 10% of the threads); stale Thread handles released late; a crowd of 64-100 threads parked inside scopes."
     ),
     "real_code": ["sqllineage/config.py (_SQLLineageConfigLoader, the module-level SQLLineageConfig object)", "os.environ"],
-    "stubs": ["threading.get_ident as seen by sqllineage.config (simulated identifiers)", "thread scheduling (baton)"],
+    "stubs": ["threading as seen by sqllineage.config: get_ident / enumerate / current_thread / active_count answer with simulated identities (sim/sched.py ThreadingShim); Lock/RLock created by sqllineage code are SimLock scheduling points", "thread scheduling (baton)"],
     "assumptions": [
         "override values stay in the documented domain (strings, ints, bools; no None, no non-numeric objects for boolean keys)",
         "a bare SQLLineageConfig(**valid) call that is never entered is not generated (the statement does not describe it)",
@@ -53,7 +56,8 @@ DESCRIPTION = {
     ],
     "required_probes": {
         "quick": ["rejected_open_then_read", "nested_rejected_then_outer_read", "exit_while_other_in_scope", "ident_reused",
-                  "falsy_override_masks_env", "switch_in___call__", "switch_in___enter__", "switch_in___exit__", "switch_in___getattr__", "insertion_sweep", "crowd"],
+                  "falsy_override_masks_env", "switch_in___call__", "switch_in___enter__", "switch_in___exit__", "switch_in___getattr__", "insertion_sweep", "crowd",
+                  "strict_warnings_world", "runner_constructed_in_scope", "runner_evaluation_failed", "foreign_thread"],
         "thorough": ["rejected_open_then_read", "nested_rejected_then_outer_read", "exit_while_other_in_scope", "ident_reused",
                      "ident_reused_after_rejected_open", "falsy_override_masks_env", "read_straddles_env_flip"],
     },
